@@ -12,6 +12,7 @@ const DEFAULT_TIMEOUT: Duration = Duration::from_secs(5);
 const DEFAULT_BLOCK_SIZE: usize = 512;
 const MIN_BLOCK_SIZE: usize = 8;
 const MAX_BLOCK_SIZE: usize = 65464;
+const MAX_TIMEOUT_SECS: usize = 255;
 const DEFAULT_WINDOW_SIZE: u16 = 1;
 
 /// Server `struct` is used for handling incoming TFTP requests.
@@ -344,7 +345,7 @@ fn parse_options(
                 RequestType::Write => worker_options.transfer_size = *value as u64,
             },
             OptionType::Timeout => {
-                if *value == 0 {
+                if *value == 0 || *value > MAX_TIMEOUT_SECS {
                     return Err("Invalid timeout value");
                 }
                 worker_options.timeout = Duration::from_secs(*value as u64);
